@@ -233,14 +233,25 @@ class C12(Prop):
                    "combinations that do not compile are unsupported (listed in UNSUPPORTED): reciprocal, divide.reduce/outer, subtract.reduce with axis None/list, keepdims=None, "
                    "matmul with a row-major rhs, simde_AVX512 matmul f64, integer element types"]
 
+    # NMV_C12_CTXS=x86_AVX,... restricts a run to some contexts and then uses the per-context servers simd_<ctx> (same objects as the
+    # full server "simd", 9 instead of 49 translation units each): meant for mutation runs, where every header change rebuilds everything
+    def __init__(self):
+        sel = [c for c in os.environ.get("NMV_C12_CTXS", "").split(",") if c]
+        self.ctxs = [c for c in CTXS if c in sel] if sel else list(CTXS)
+        self.per_ctx = bool(sel)
+        self.servers = ["simd_" + c for c in self.ctxs] if sel else ["simd"]
+
+    def server_of(self, case):
+        return "simd_" + case["ctx"] if self.per_ctx else "simd"
+
     # ------------------------------------------------------------------ exhaustive tier
     def exhaustive_space(self, tier):
-        return ("6 contexts x 2 dtypes x {12 unary ops: n=1..4L+1 + 2-d shapes x 2 layouts + boundary values; 4 binary ops: n=1..4L+1 + 12 broadcast patterns x (n,m) around lane "
+        return ("%d context(s) x {f32, f64; i32, i64 without unary} x {12 unary ops: n=1..4L+1 + 2-d shapes x 2 layouts + boundary values; 4 binary ops: n=1..4L+1 + 12 broadcast patterns x (n,m) around lane "
                 "multiples + layout pairs; reduce add/multiply/subtract: 1..3-d shapes x every axis/None/list x keepdims kinds x initial x 2 layouts (%s); outer add/multiply/subtract; "
-                "matmul (n,k)x(k,m) around lane multiples x 2 lhs layouts}" % ("full cross" if tier == "thorough" else "every keepdims kind without initial + one rotating kind with initial"))
+                "matmul (n,k)x(k,m) around lane multiples x 2 lhs layouts}" % (len(self.ctxs), "full cross" if tier == "thorough" else "every keepdims kind without initial + one rotating kind with initial"))
 
     def exhaustive(self, tier):
-        for ctx in CTXS:
+        for ctx in self.ctxs:
             for dt in DTS:
                 yield from self._unary_cases(ctx, dt, tier)
                 yield from self._binary_cases(ctx, dt, tier)
@@ -375,9 +386,11 @@ class C12(Prop):
         return 40000 if tier == "quick" else 400000
 
     def strategy(self, tier):
+        ctxs = self.ctxs
+
         @st.composite
         def case(draw):
-            ctx = draw(st.sampled_from(CTXS))
+            ctx = draw(st.sampled_from(ctxs))
             dt = draw(st.sampled_from(DTS + DTS + INT_DTS))
             form = draw(st.sampled_from(["unary", "binary", "reduce", "outer", "matmul"]))
             if (form == "matmul" and not matmul_ok(ctx, dt)) or (form == "unary" and is_int(dt)):
